@@ -23,12 +23,15 @@ INJECT = [
     ("zkabacus-crypto/src/states.rs", "za_states.rs"),
     ("zkabacus-crypto/src/customer.rs", "za_customer.rs"),
     ("zkabacus-crypto/src/revlock.rs", "za_revlock.rs"),
+    ("zkabacus-crypto/src/nonce.rs", "za_nonce.rs"),
     ("zkabacus-crypto/src/proofs.rs", "za_proofs.rs"),
 ]
 
 # test -> (crate, properties it stands in for, functions)
 TESTS = {
     "standin_ps_signature_verify": ("zkchannels-crypto", ["C07", "C08", "C03", "C18"], ["ps.Signature::verify", "ps.Signature::new"]),
+    "standin_key_decode_validation": ("zkchannels-crypto", ["C15"], ["ps.PublicKey::try_from", "ps.SecretKey::try_from"]),
+    "standin_range_params_generation": ("zkchannels-crypto", ["C19", "C13"], ["range.RangeConstraintParameters::new", "ps.Signature::new"]),
     "standin_keygen": ("zkchannels-crypto", ["C19", "C07", "C08", "C01"], ["ps.KeyPair::new", "ps.SecretKey::new", "ps.PublicKey::from_secret_key"]),
     "standin_ps_publickey_consume": ("zkchannels-crypto", ["C12", "C01", "C02", "C06"], ["ps.PublicKey::consume"]),
     "standin_pedersen_commitment": ("zkchannels-crypto", ["C09", "C10", "C11", "C05"], ["pedersen.Commitment::new", "pedersen.Commitment::verify_opening"]),
@@ -50,13 +53,15 @@ TESTS = {
     "standin_no_hidden_slot_exposed": ("zkabacus-crypto", ["C14"], ["zproofs.EstablishProof::new", "zproofs.PayProof::new"]),
     "standin_close_from_every_stage": ("zkabacus-crypto", ["C03", "C04", "C14"], ["customer.Inactive/Ready/Started/Locked::close", "merchant.Config::check_close_signature"]),
     "standin_revocation_pair": ("zkabacus-crypto", ["C05", "C15", "C20"], ["revlock.RevocationPair::new", "revlock.RevocationPair::try_from_secret", "revlock.RevocationPair::try_from_pair"]),
+    "standin_close_rerandomized": ("zkabacus-crypto", ["C14"], ["customer.*::close", "customer.ClosingMessage::new", "states.CloseStateSignature::randomize"]),
+    "standin_nonce_never_close_tag": ("zkabacus-crypto", ["C18", "C15"], ["nonce.Nonce::new", "nonce.Nonce::try_from"]),
     "standin_restore_continues": ("zkabacus-crypto", ["C20", "C03"], ["customer.Requested/Inactive/Ready/Started/Locked (serde derives)", "customer.*::close", "customer.Started::lock"]),
     "standin_merchant_flow": ("zkabacus-crypto", ["C04", "C05", "C03", "C01", "C02"], ["merchant.Config::*", "merchant.Unrevoked::complete_payment", "customer.*"]),
 }
 
 
 # stand-ins that run in every tier: they carry a recorded finding that no deductive obligation expresses
-ALWAYS = {"C06": ["standin_channel_id_collision_mod_q", "standin_channel_id_scalar", "standin_establish_tuple", "standin_pay_tuple", "standin_context_digest"], "C14": ["standin_no_hidden_slot_exposed"]}
+ALWAYS = {"C06": ["standin_channel_id_collision_mod_q", "standin_channel_id_scalar", "standin_establish_tuple", "standin_pay_tuple", "standin_context_digest"], "C14": ["standin_no_hidden_slot_exposed"], "C19": ["standin_range_params_generation"], "C13": ["standin_range_params_generation"]}
 
 
 def tests_for(pid):
